@@ -1,6 +1,22 @@
 """Which units decide which property (read by tools/check.py)."""
 
 PROPS = {
+    "C05": {
+        "level": "other",   # deductive verification of NECESSARY conditions only, with one known finding: not a proof-level record of the property
+        "verus": ["parser_core"],
+        "frame": ["peek_while_is_the_plain_loop"],
+        "explanation": "PARTIAL, one direction only, with ONE KNOWN FINDING. Contract-based deductive verification (Verus) of a necessary condition of grammar membership on every grammar function of "
+                       "parser/grammar/*.rs: if a function reports no error (and the end of input was not swallowed by an error path), it has added at least as many significant tokens to the tree as the SHORTEST "
+                       "sentence of its production has (Arguments >= 5: `(` Name `:` Value `)`; VariableDefinitions >= 6; SelectionSet >= 3; FragmentDefinition >= 7; FieldsDefinition >= 5; DirectiveDefinition >= 5 when entered at "
+                       "`directive`; SchemaDefinition >= 6 when entered at `schema`; the type extensions >= 5; ...). An implementation that silently accepts an EMPTY list, a MISSING mandatory token or a half-written "
+                       "construct violates the bound of that production, for every input. Found this way and repaired in /repo: `f(a)` (argument without `: value`), `{b}` (object field without `: value`), `schema @d` "
+                       "(schema definition without root operation types). Known finding (repair changes a pinned snapshot): `schema { query: }` is accepted.",
+        "assumptions": ["the Lexer contract (proved in units lexer / lexer_next, shared clause text)", "peek_n / peek_token_n / peek_data_n results are unconstrained (they only steer branches)",
+                        "the bounds are conditional on the entry look-ahead where a definition function is entered through select_definition (keyword or description first)"],
+        "not_decided": ["the converse direction (a document of the grammar parses WITHOUT errors) -- nothing here notices a rule that wrongly REJECTS",
+                        "full grammar membership of error-free documents (token ORDER and KINDS inside a production beyond what the min-length bounds imply; only Type is specified exactly, under C07)",
+                        "that the syntax tree contains exactly the reference parser's top-level definitions (tree shape is not modelled)", "the reference parser as oracle"],
+    },
     "C26": {
         "level": "proof",
         "verus": ["execution"],
